@@ -132,7 +132,7 @@ structure DState where
 
 def histOps : List String :=
   ["reset", "geo", "root", "mem", "memw", "elem", "elemw", "set", "setm", "sete", "add", "addv", "toarr", "toobj", "remi", "remk", "clear", "cleardoc",
-   "copydoc", "swapdoc", "shrink", "obs", "obsx", "failat", "failfrom", "nofail", "ledger", "hser", "liveq"]
+   "copydoc", "swapdoc", "shrink", "obs", "obsx", "failat", "failfrom", "nofail", "ledger", "hser", "liveq", "deserj", "deserm"]
 
 /-- cell of a C array after copyArray: `none` in the model = undefined behaviour of the conversion -/
 def caCell (cfg : Cfg) (kind : String) (v : Val) : String :=
